@@ -1,4 +1,6 @@
 import SSVerif.Model.Ranges
+import SSVerif.Model.RangesHmm
+import SSVerif.Model.RangesSemi
 import Driver.Util
 /-! driver sub-command `c18`: replays the integer ops of harness/h_c18.c (`int` mode) on the model -/
 namespace Driver.C18
@@ -9,9 +11,17 @@ inductive HSt where
   | h3 (tp : List (List Int)) (ids : List Int) (h : H3)
   | h5 (tp : List (List Int)) (ids : List Int) (h : H5)
 
+/-- the HMM of the last `hmmx` op: transition rows, senone-sequence table, multiplex flag, state -/
+inductive XSt where
+  | none
+  | m3 (tp : List (List Int)) (sseq : List (List Int)) (m : M3)
+  | m5 (tp : List (List Int)) (sseq : List (List Int)) (m : M5)
+  | any (tp : List (List Int)) (sseq : List (List Int)) (mpx : Bool) (h : HA)
+
 structure St where
   tab : List Nat := []
   hmm : HSt := .none
+  xhmm : XSt := .none
   cov : List String := []
 
 def addCov (s : St) (tags : List String) : St :=
@@ -215,6 +225,253 @@ def opSemi (s : St) (a : List Int) : Option String := do
                 if r.scores.any (· < 0) then "semi.score<0" else "semi.score>=0" ]
   some (s!"s {showInts r.scores} | n {showInts (r.counts.map Int.ofNat)} | t {showInts flat}" ++ " #" ++ sepBy "," tags)
 
+/-! ### C18More: multiplex / any-topology evaluators, renormalisation -/
+
+/-- `senscore[sseq[id][st]]` (raw) for the multiplex 3/5-state evaluators -/
+def senMpx (sseq : List (List Int)) (sens : List Int) : Int → Nat → Int :=
+  fun id st => sens.getD ((sseq.getD id.toNat []).getD st 0).toNat 0
+
+/-- `hmm_senscr(hmm, st)` for the id held in `senid[st]` (hmm.h:200-209): the value that is ADDED -/
+def senAny (mpx : Bool) (sseq : List (List Int)) (sens : List Int) : Int → Nat → Int :=
+  fun id st =>
+    if id = BAD then WORST
+    else
+      let sid := if mpx then (sseq.getD id.toNat []).getD st 0 else id
+      if sid = BAD then WORST else -(sens.getD sid.toNat 0)
+
+def showX (sc : List Int) (out best : Int) (hist : List Int) (hout : Int) (ids : List Int) : String :=
+  s!"r {showInts sc} {out} {best} | {showInts hist} {hout} | {showInts ids}"
+
+def showM3 (m : M3) : String :=
+  showX [m.h.s0, m.h.s1, m.h.s2] m.h.out m.h.best [m.h.h0, m.h.h1, m.h.h2] m.h.hout [m.i0, m.i1, m.i2]
+def showM5 (m : M5) : String :=
+  showX [m.h.s0, m.h.s1, m.h.s2, m.h.s3, m.h.s4] m.h.out m.h.best [m.h.h0, m.h.h1, m.h.h2, m.h.h3, m.h.h4] m.h.hout
+    [m.i0, m.i1, m.i2, m.i3, m.i4]
+def showA (h : HA) : String := showX h.sc h.out h.best h.hist h.hout h.ids
+
+def tagsM (n : Nat) (ids ids' : List Int) (sc sc' : List Int) : List String :=
+  [ s!"mpx{n}." ++ (if ids.any (· = BAD) then "some-state-BAD_SSID" else "all-states-have-ssid"),
+    s!"mpx{n}." ++ (if ids' != ids then "ssid-propagated" else "ssid-unchanged"),
+    s!"mpx{n}." ++ (if sc'.any (· = WORST) then "some-score-at-WORST" else "all-scores-live"),
+    s!"mpx{n}." ++ (if sc.any (fun x => x ≠ WORST ∧ x < WORST + 40000) then "score-near-WORST" else "scores-far-from-WORST") ]
+
+def tagsA (mpx : Bool) (h h' : HA) (c : Int → Nat → Int) : List String :=
+  let n := h.sc.length
+  [ s!"any{n}." ++ (if mpx then "mpx" else "non-mpx"),
+    "any." ++ (if h'.sc.getD 0 0 < WORST then "entry-state-below-WORST" else "entry-state>=WORST"),
+    "any." ++ (if (h'.sc.drop 1).any (· < WORST) then "other-state-below-WORST(by<=254)" else "other-states>=WORST"),
+    "any." ++ (if (List.range n).any (fun i => c (h.ids.getD i 0) i = WORST) then "BAD_SENID" else "all-senids-valid"),
+    "any." ++ (if h'.hist != h.hist then "history-moved" else "history-kept"),
+    "any." ++ (if h'.ids != h.ids then "senid-propagated" else "senid-kept"),
+    "any." ++ (if h'.out = WORST then "exit-at-WORST" else "exit-live") ]
+
+def opHmmx (a : List Int) : Option (XSt × String) := do
+  let n := (a.getD 0 0).toNat
+  let mpx := a.getD 1 0 ≠ 0
+  let nsen := (a.getD 2 0).toNat
+  let nss := (a.getD 3 0).toNat
+  let a := a.drop 4
+  let (tpl, a) ← cut (n * (n + 1)) a
+  let (sq, a) ← cut (nss * n) a
+  let (ids, a) ← cut n a
+  let (sens, a) ← cut nsen a
+  let (sc, a) ← cut n a
+  let (outv, a) ← cut 1 a
+  let (hi, a) ← cut n a
+  let (ho, a) ← cut 1 a
+  if !a.isEmpty then none
+  let rows := chunks (n + 1) n tpl
+  let sseq := chunks n nss sq
+  let g := fun (l : List Int) (i : Nat) => l.getD i 0
+  if mpx ∧ n = 3 then
+    let m : M3 := { h := { s0 := g sc 0, s1 := g sc 1, s2 := g sc 2, out := g outv 0,
+                           h0 := g hi 0, h1 := g hi 1, h2 := g hi 2, hout := g ho 0, best := 0 },
+                    i0 := g ids 0, i1 := g ids 1, i2 := g ids 2 }
+    let r := (hmm3MpxStep (fn2 rows) (senMpx sseq sens) m).1
+    some (.m3 rows sseq r, showM3 r ++ " #" ++ sepBy "," (tagsM 3 ids [r.i0, r.i1, r.i2] sc [r.h.s0, r.h.s1, r.h.s2]))
+  else if mpx ∧ n = 5 then
+    let m : M5 := { h := { s0 := g sc 0, s1 := g sc 1, s2 := g sc 2, s3 := g sc 3, s4 := g sc 4, out := g outv 0,
+                           h0 := g hi 0, h1 := g hi 1, h2 := g hi 2, h3 := g hi 3, h4 := g hi 4, hout := g ho 0, best := 0 },
+                    i0 := g ids 0, i1 := g ids 1, i2 := g ids 2, i3 := g ids 3, i4 := g ids 4 }
+    let r := (hmm5MpxStep (fn2 rows) (senMpx sseq sens) m).1
+    some (.m5 rows sseq r, showM5 r ++ " #" ++ sepBy "," (tagsM 5 ids [r.i0, r.i1, r.i2, r.i3, r.i4] sc
+      [r.h.s0, r.h.s1, r.h.s2, r.h.s3, r.h.s4]))
+  else if n = 3 ∨ n = 5 then none     -- non-multiplex 3/5 states: the `hmm` op
+  else
+    let h : HA := { sc := sc, hist := hi, out := g outv 0, hout := g ho 0, ids := ids, best := 0 }
+    let c := senAny mpx sseq sens
+    let r := (anytopoStep SSVerif.Generated.Ranges.anytopoClamp0 mpx (fn2 rows) c h).1
+    some (.any rows sseq mpx r, showA r ++ " #" ++ sepBy "," (tagsA mpx h r c))
+
+def opHmmxc (st : XSt) (a : List Int) : Option (XSt × String) := do
+  let ent := if a.getD 0 0 ≠ 0 then some (a.getD 1 0, a.getD 2 0) else none
+  let sens := a.drop 3
+  match st with
+  | .none => none
+  | .m3 rows sseq m =>
+    let r := (FrameM.apply3 (fn2 rows) m { enter := ent, sen := senMpx sseq sens }).1
+    some (.m3 rows sseq r, showM3 r ++ " #" ++ sepBy "," (tagsM 3 [m.i0, m.i1, m.i2] [r.i0, r.i1, r.i2]
+      [m.h.s0, m.h.s1, m.h.s2] [r.h.s0, r.h.s1, r.h.s2]))
+  | .m5 rows sseq m =>
+    let r := (FrameM.apply5 (fn2 rows) m { enter := ent, sen := senMpx sseq sens }).1
+    some (.m5 rows sseq r, showM5 r ++ " #" ++ sepBy "," (tagsM 5 [m.i0, m.i1, m.i2, m.i3, m.i4] [r.i0, r.i1, r.i2, r.i3, r.i4]
+      [m.h.s0, m.h.s1, m.h.s2, m.h.s3, m.h.s4] [r.h.s0, r.h.s1, r.h.s2, r.h.s3, r.h.s4]))
+  | .any rows sseq mpx h =>
+    let c := senAny mpx sseq sens
+    let r := (FrameA.apply SSVerif.Generated.Ranges.anytopoClamp0 mpx (fn2 rows) h { enter := ent, c := c }).1
+    let h' := match ent with | some (s, hi) => h.enter s hi | none => h
+    some (.any rows sseq mpx r, showA r ++ " #" ++ sepBy "," (tagsA mpx h' r c))
+
+/-- `hmmxrun n T sen tpself tpnext`: `T` frames of the model's own `anytopoStep` / `hmm3Step` / `hmm5Step` -/
+def opHmmxrun (a : List Int) : Option String := do
+  if a.length ≠ 5 then none
+  let n := (a.getD 0 0).toNat
+  let T := (a.getD 1 0).toNat
+  let sen := a.getD 2 0
+  let tps := (a.getD 3 0).toNat
+  let tpn := (a.getD 4 0).toNat
+  let tp : Nat → Nat → Nat := fun i j => if j = i then tps else if j = i + 1 then tpn else 255
+  if n = 3 then
+    let step := fun (p : H3 × Int) (_ : Nat) =>
+      let r := (hmm3Step tp sen sen sen p.1).1
+      (r, if r.s0 < p.2 then r.s0 else p.2)
+    let r := (List.range T).foldl step (H3.clear.enter 0 1, 0)
+    some s!"x {r.1.s0} {r.1.s1} {r.1.s2} {r.1.out} {if T = 0 then 0 else r.1.best} | {r.2}"
+  else if n = 5 then
+    let step := fun (p : H5 × Int) (_ : Nat) =>
+      let r := (hmm5Step tp sen sen sen sen sen p.1).1
+      (r, if r.s0 < p.2 then r.s0 else p.2)
+    let r := (List.range T).foldl step (H5.clear.enter 0 1, 0)
+    some s!"x {r.1.s0} {r.1.s1} {r.1.s2} {r.1.s3} {r.1.s4} {r.1.out} {if T = 0 then 0 else r.1.best} | {r.2}"
+  else
+    let c : Int → Nat → Int := fun _ _ => -sen
+    let step := fun (p : HA × Int) (_ : Nat) =>
+      let r := (anytopoStep SSVerif.Generated.Ranges.anytopoClamp0 false tp c p.1).1
+      (r, if r.sc.getD 0 0 < p.2 then r.sc.getD 0 0 else p.2)
+    let r := (List.range T).foldl step ((HA.clear n ((List.range n).map Int.ofNat)).enter 0 1, 0)
+    some s!"x {showInts r.1.sc} {r.1.out} {if T = 0 then 0 else r.1.best} | {r.2}"
+
+/-- `norm best n score.. out` -/
+def opNorm (a : List Int) : Option String := do
+  let b := a.getD 0 0
+  let n := (a.getD 1 0).toNat
+  let a := a.drop 2
+  let (sc, a) ← cut n a
+  let (outv, a) ← cut 1 a
+  if !a.isEmpty then none
+  let fired := renormFires b
+  let f := fun x => if fired then normOne b x else x
+  let tags := [ if fired then "norm.fired" else (if b > WORST then "norm.not-fired(best-above-margin)" else "norm.not-fired(best<=WORST)"),
+                if fired ∧ (sc ++ outv).any (· ≤ WORST) then "norm.dead-score-kept" else "norm.no-dead-score",
+                if fired ∧ (sc ++ outv).any (· > b) then "norm.stale-score-above-best(goes-positive)" else "norm.all-scores<=best" ]
+  some (s!"n {if fired then 1 else 0} {showInts (sc.map f)} {f (outv.getD 0 0)}" ++ " #" ++ sepBy "," tags)
+
+/-- `semif nfeat topn nsen nden compall use4b ds nframes | beams | mixw | nact deltas | per frame nfeat*nden densities`:
+consecutive frames of the model's own `semiFrame`, starting from `semiInit` -/
+def opSemif (s : St) (a : List Int) : Option String := do
+  let g := fun (i : Nat) => (a.getD i 0).toNat
+  let (nfeat, topn, nsen, nden) := (g 0, g 1, g 2, g 3)
+  let compall := a.getD 4 0 ≠ 0
+  let use4b := a.getD 5 0 ≠ 0
+  let ds := g 6
+  let nfr := g 7
+  let a := a.drop 8
+  let (beams, a) ← cut nfeat a
+  let (m, a) ← readMixw use4b nfeat nden nsen a
+  let (na, a) ← cut 1 a
+  let (deltas, a) ← cut (na.getD 0 0).toNat a
+  if a.length ≠ nfr * nfeat * nden ∨ ds = 0 then none
+  let frames := chunks (nfeat * nden) nfr a
+  let step := fun (p : List (List TopN) × List String × Nat × List String) (fr : List Int) =>
+    let t := p.1
+    let idx := p.2.2.1
+    let rows := chunks nden nfeat fr
+    let dens : Nat → Nat → Int := fun f cw => (rows.getD f []).getD cw 0
+    let skip := idx % ds ≠ 0
+    let r := semiFrame (tabFn s) m nsen beams dens nden skip t compall (deltas.map Int.toNat)
+    let flat := r.topn.flatMap fun l => l.flatMap fun e => [(e.cw : Int), e.score]
+    let dist := t.mapIdx fun f l => semiDist (dens f) nden skip l
+    let tags := [ if skip then "semif.frame-skipped(eval_topn only)" else "semif.full-frame",
+                  if dist.any (fun l => l.any (fun e => e.score = SSVerif.Generated.Ranges.int32Min)) then "semif.MAX_NEG_INT32-density" else "semif.ordinary-densities",
+                  if r.counts.any (· < topn) then "semif.beam-break" else "semif.no-beam-break",
+                  if (dist.zip t).any (fun q => q.1.map (·.cw) != q.2.map (·.cw)) then "semif.top-N-changed" else "semif.top-N-kept",
+                  if r.scores.any (· < 0) then "semif.score<0" else "semif.score>=0" ]
+    (r.topn, p.2.1 ++ [s!"f {showInts r.scores} | n {showInts (r.counts.map Int.ofNat)} | t {showInts flat}"], idx + 1,
+     tags.foldl (fun acc x => if acc.contains x then acc else acc ++ [x]) p.2.2.2)
+  let r := frames.foldl step (semiInit nfeat topn, [], 0, [])
+  some (sepBy " ; " r.2.1 ++ " #" ++ sepBy "," r.2.2.2)
+
+/-- `enter src lp best beam childIn childFrame frame`: the model's `enterScore` (fsg_search_pnode_trans) -/
+def opEnter (a : List Int) : Option String := do
+  if a.length ≠ 7 then none
+  let g := fun (i : Nat) => a.getD i 0
+  let r := enterScore (g 0) (g 1) (g 2) (g 3) (g 4)
+  let thresh := r.2.getD 0 0
+  let ns := r.2.getD 1 0
+  let entered := decide (ns > thresh ∧ ns > g 4)
+  let nf := g 6 + 1
+  let tags := [ if entered then "enter.entered" else (if ns > thresh then "enter.not-better-than-child" else "enter.below-beam"),
+                if entered ∧ g 5 < nf then "enter.child-activated" else "enter.child-not-activated" ]
+  some (s!"e {r.1} {if entered then nf else g 5} {if entered ∧ g 5 < nf then 1 else 0}" ++ " #" ++ sepBy "," tags)
+
+/-- `arun N T best0 | tp 12 | per HMM: frame s0 s1 s2 out h0 h1 h2 hout | per frame 3N senone scores`: the aligner's
+frame loop through the model's own `alignFrame` (renormalisation of EVERY HMM, evaluation of the active ones); which HMMs
+are active and which are entered (`prune_hmms`, `phone_transition` with sf = 0, ef = INT_MAX) is bookkeeping done here:
+an HMM is evaluated in frame `t` iff its frame stamp is `≥ t`; afterwards it is stamped `t + 1`; then, left to right, an
+HMM stamped `t + 1` hands its exit score to its successor if that one is inactive (stamp `< t`) or has a worse entry
+score — applied as the `enter` of the successor's next `Frame3`. -/
+structure ASt where
+  hs : List H3
+  fr : List Int
+  best : Int
+  nren : Nat
+  bests : List Int
+
+def arunTrans (t : Int) : Nat → Option (H3 × Int) → List (H3 × Int) → List (H3 × Int)
+  | _, _, [] => []
+  | i, none, p :: rest => p :: arunTrans t (i + 1) (some p) rest
+  | i, some q, p :: rest =>
+    let p' : H3 × Int :=
+      if q.2 ≠ t + 1 then p
+      else if p.2 < t ∨ q.1.out > p.1.s0 then (p.1.enter q.1.out q.1.hout, t + 1)
+      else p
+    p' :: arunTrans t (i + 1) (some p') rest
+
+def opArun (a : List Int) : Option String := do
+  let N := (a.getD 0 0).toNat
+  let T := (a.getD 1 0).toNat
+  let best0 := a.getD 2 0
+  let a := a.drop 3
+  let (tpl, a) ← cut 12 a
+  let (init, a) ← cut (9 * N) a
+  if a.length ≠ 3 * N * T then none
+  let rows := chunks 4 3 tpl
+  let tp := fn2 rows
+  let hm := (chunks 9 N init).map fun r =>
+    let g := fun (i : Nat) => r.getD i 0
+    (({ s0 := g 1, s1 := g 2, s2 := g 3, out := g 4, h0 := g 5, h1 := g 6, h2 := g 7, hout := g 8, best := 0 } : H3), g 0)
+  let frames := chunks (3 * N) T a
+  let step := fun (p : ASt × Nat) (sen : List Int) =>
+    let st := p.1
+    let t : Int := (p.2 : Int)
+    let fires := renormFires st.best
+    let evals : List (Option Frame3) := st.fr.mapIdx fun i f =>
+      if f < t then none else some { enter := none, c0 := sen.getD (3 * i) 0, c1 := sen.getD (3 * i + 1) 0, c2 := sen.getD (3 * i + 2) 0 }
+    let r := alignFrame (fun _ => tp) st.hs { renorm := if fires then some st.best else none, evals := evals }
+    let best := (r.1.zip evals).foldl (fun b q => match q.2 with | some _ => (if q.1.best > b then q.1.best else b) | none => b) WORST
+    let fr1 := st.fr.map fun f => if f < t then f else t + 1
+    let tr := arunTrans t 0 none (r.1.zip fr1)
+    (({ hs := tr.map (·.1), fr := tr.map (·.2), best := best, nren := st.nren + (if fires then 1 else 0),
+        bests := st.bests ++ [best] } : ASt), p.2 + 1)
+  let fin := (frames.foldl step (({ hs := hm.map (·.1), fr := hm.map (·.2), best := best0, nren := 0, bests := [] } : ASt), 0)).1
+  let per := (fin.hs.zip fin.fr).flatMap fun q => [q.2, q.1.s0, q.1.s1, q.1.s2, q.1.out, q.1.h0, q.1.h1, q.1.h2, q.1.hout]
+  let tags := [ if fin.nren > 0 then "arun.renormalised" else "arun.no-renormalisation",
+                if fin.nren > 0 ∧ (hm.any fun q => q.2 < 0 ∧ (q.1.s0 > WORST ∨ q.1.s1 > WORST ∨ q.1.s2 > WORST ∨ q.1.out > WORST))
+                  then "arun.stale-HMM-renormalised" else "arun.no-stale-HMM-touched",
+                if fin.hs.any (fun h => h.s0 > 0 ∨ h.s1 > 0 ∨ h.s2 > 0 ∨ h.out > 0) then "arun.positive-score-after" else "arun.all-scores<=0",
+                if fin.fr != hm.map (·.2) ∧ (fin.fr.zip (hm.map (·.2))).any (fun q => q.2 < 0 ∧ q.1 ≥ 0) then "arun.phone-entered" else "arun.no-new-phone" ]
+  some (s!"A {fin.nren} | {showInts per} | {showInts fin.bests}" ++ " #" ++ sepBy "," tags)
+
 def step (s : St) (ws : List String) : St × String :=
   match ws with
   | [] => (s, "")
@@ -233,6 +490,20 @@ def step (s : St) (ws : List String) : St × String :=
   | "ptm" :: rest => (s, ((ints rest).bind (opPtm s)).getD "bad-op")
   | "semi" :: rest => (s, ((ints rest).bind (opSemi s)).getD "bad-op")
   | "top" :: rest => (s, ((ints rest).bind opTop).getD "bad-op")
+  | "hmmx" :: rest =>
+    match (ints rest).bind opHmmx with
+    | some (h, o) => ({ s with xhmm := h }, o)
+    | none => (s, "bad-op")
+  | "hmmxc" :: rest =>
+    match (ints rest).bind (opHmmxc s.xhmm) with
+    | some (h, o) => ({ s with xhmm := h }, o)
+    | none => (s, "bad-op")
+  | "hmmxrun" :: rest => (s, ((ints rest).bind opHmmxrun).getD "bad-op")
+  | "norm" :: rest => (s, ((ints rest).bind opNorm).getD "bad-op")
+  | ["addidx"] => (s, "a")
+  | "enter" :: rest => (s, ((ints rest).bind opEnter).getD "bad-op")
+  | "arun" :: rest => (s, ((ints rest).bind opArun).getD "bad-op")
+  | "semif" :: rest => (s, ((ints rest).bind (opSemif s)).getD "bad-op")
   | _ => (s, "bad-op")
 
 def main : IO Unit := runLoop step {}
